@@ -134,12 +134,21 @@ def ensure_repo_config(workdir):
     if not os.path.exists(cfg):
         with open(os.path.join(inc, "rtrlib", "config.h"), "w") as f:
             f.write("#ifndef RTR_CONFIG_H\n#define RTR_CONFIG_H\n#define RTRLIB_BGPSEC_ENABLED\n#endif\n")
+    # rtrlib/rtrlib.h is generated as well (rtrlib.h.cmake); same content with tree-relative includes
+    if not os.path.exists(os.path.join(REPO, "rtrlib", "rtrlib.h")):
+        with open(os.path.join(inc, "rtrlib", "rtrlib.h"), "w") as f:
+            f.write("#ifndef RTRLIB_H\n#define RTRLIB_H\n#define RTRLIB_VERSION_MAJOR 0\n#define RTRLIB_VERSION_MINOR 8\n"
+                    "#define RTRLIB_VERSION_PATCH 0\n#include \"rtrlib/config.h\"\n"
+                    + "".join('#include "rtrlib/%s"\n' % h for h in (
+                        "lib/alloc_utils.h", "lib/ip.h", "lib/ipv4.h", "lib/ipv6.h", "pfx/pfx.h", "rtr/rtr.h", "rtr_mgr.h",
+                        "spki/spkitable.h", "transport/tcp/tcp_transport.h", "transport/transport.h"))
+                    + "#ifdef RTRLIB_BGPSEC_ENABLED\n#include \"rtrlib/bgpsec/bgpsec.h\"\n#endif\n#endif\n")
     return inc
 
 
 def include_flags(workdir):
     inc = ensure_repo_config(workdir)
-    return ["-I", REPO, "-I", os.path.join(REPO, "third-party"), "-I", inc,
+    return ["-I", REPO, "-I", os.path.join(REPO, "third-party"), "-I", inc, "-I", os.path.join(inc, "rtrlib"),
             "-I", os.path.join(VERIF, "lib"), "-I", os.path.join(VERIF, "harness")]
 
 
